@@ -10,8 +10,8 @@ from ..sandbox import fsdec, subtree
 ID = "C09"
 LEVEL = "exploration"
 RULE = ("Model-based (stateful) testing: Hypothesis generates a history of 3-25 operations over a "
-        "2-3 volume world - put(path slot, spelling), recreate(slot), mk_top(volume: a sticky $topdir/.Trash appears mid-history), restore(directory, index, "
-        "sort), rm(pattern), empty(), empty(DAYS) with TRASH_DATE, advance_clock - interpreted "
+        "2-3 volume world - put(path slot, spelling), recreate(slot), mk_top(volume: a sticky $topdir/.Trash appears mid-history), restore(directory, answer = index | range | list | both, "
+        "sort), bulk put of every free slot in one invocation, rm(pattern), empty(), empty(DAYS) with TRASH_DATE, advance_clock - interpreted "
         "against the real commands and against an abstract BAG of (original path, date, payload "
         "digest): put adds one element; restore removes the element printed at the chosen index "
         "(unless its destination exists); rm removes the elements selected by an own glob "
@@ -32,7 +32,7 @@ PATTERNS = ["a", "b", "*", "a*", "?", "[ab]", "/home/u/w/*", "/vol/*", "/*/a", "
 
 
 def examples(tier):
-    return 1800 if tier == "quick" else 30000
+    return 1500 if tier == "quick" else 30000
 
 
 OP = st.one_of(
@@ -45,6 +45,16 @@ OP = st.one_of(
     st.tuples(st.just("put"), st.sampled_from([0, 5, 8]), st.just("abs"), st.just("file")),
     st.tuples(st.just("restore"), st.integers(0, len(DIRS) - 1), st.integers(0, 7),
               st.sampled_from([None, "date", "path", "none"])),
+    # several entries chosen in one answer: ranges, lists, both, with blanks; indices may have two digits
+    st.tuples(st.just("restore"), st.sampled_from([0, 0, 1, 5]), st.integers(0, 13),
+              st.sampled_from([None, "date", "path", "none"]),
+              st.sampled_from(["range", "range", "list", "range_list", "spaced", "rev_list"]),
+              st.integers(1, 6)),
+    # one invocation trashing every free slot at once (same DeletionDate, many entries)
+    st.tuples(st.just("bulk"), st.sampled_from(["file", "tree"])),
+    st.tuples(st.just("bulk"), st.just("file")),
+    st.tuples(st.just("restore"), st.just(0), st.integers(7, 12), st.sampled_from([None, "path"]),
+              st.sampled_from(["range", "range_list", "spaced"]), st.integers(1, 3)),
     st.tuples(st.just("rm"), st.sampled_from(PATTERNS)),
     st.tuples(st.just("empty"), st.sampled_from([None, None, 0, 1, 2, 30])),
     st.tuples(st.just("clock"), st.sampled_from([86400, 86400 * 2, 86400 * 31, 3600])),
@@ -183,6 +193,21 @@ def run_case(case):
             else:
                 out.fail("put_failed", "step %d: trash-put %r failed: %r" % (step, arg, r.err[-300:]), op="put")
                 break
+        elif k == "bulk":
+            made = [i for i in range(len(SLOTS)) if create(i, op[1])]
+            if made:
+                snap = sandbox.snapshot()
+                r = run("trash-put", ["--"] + [SLOTS[i] for i in made])
+                if r.code != 0:
+                    out.fail("put_failed", "step %d: trash-put of %d entries failed: %r" % (
+                        step, len(made), r.err[-300:]), op="put")
+                    break
+                for i in made:
+                    bag.append(dict(path=SLOTS[i], date=gen.date_str(clock[0]),
+                                    digest=repr(sorted(subtree(snap, SLOTS[i], mtime=False).items()))))
+                puts += len(made)
+                if removals:
+                    put_after_removal = True
         elif k == "recreate":
             create(op[1], op[2])
         elif k == "mk_top":
@@ -245,16 +270,57 @@ def run_case(case):
                     break
                 continue
             idx = op[2] % len(scope)
-            # which element is printed at idx?
-            target = None
-            for b in scope:
-                rec = "%4d %s %s\n" % (idx, b["date"].replace("T", " "), b["path"])
-                if rec in r0.out:
-                    target = b
+
+            def at(i):
+                """which element is printed at index i?"""
+                found = None
+                for b in scope:
+                    rec = "%4d %s %s\n" % (i, b["date"].replace("T", " "), b["path"])
+                    if rec in r0.out:
+                        found = b
+                return found
+            target = at(idx)
             if target is None:
                 out.fail("restore_listing", "step %d: cannot find index %d among the records of "
                          "the bag in %r (stderr %r)" % (step, idx, r0.out[:300], r0.err[-200:]), op="restore")
                 break
+            if len(op) > 4:
+                # an answer naming several indices; used when every chosen entry is restorable
+                # (free, pairwise different destinations), else the single index is answered
+                hi = min(len(scope) - 1, idx + op[5])
+                form = op[4]
+                extra = hi + 1 if hi + 1 < len(scope) else None
+                if form == "list":
+                    sel, reply = [idx, hi], "%d,%d" % (idx, hi)
+                elif form == "rev_list":
+                    sel, reply = [hi, idx], "%d,%d" % (hi, idx)
+                elif form == "range_list" and extra is not None:
+                    sel, reply = list(range(idx, hi + 1)) + [extra], "%d-%d,%d" % (idx, hi, extra)
+                elif form == "spaced":
+                    sel, reply = list(range(idx, hi + 1)), " %d - %d " % (idx, hi)
+                else:
+                    sel, reply = list(range(idx, hi + 1)), "%d-%d" % (idx, hi)
+                chosen = [at(i) for i in sel]
+                paths = [b["path"] for b in chosen if b is not None]
+                if hi > idx and None not in chosen and len(set(paths)) == len(paths) and \
+                        not any(q in snap for q in paths):
+                    r1 = run("trash-restore", sort, cwd=d, stdin=reply + "\n")
+                    after = sandbox.snapshot()
+                    bad = False
+                    for b in chosen:
+                        bag.remove(b)
+                        removals += 1
+                        if repr(sorted(subtree(after, b["path"], mtime=False).items())) != b["digest"]:
+                            out.fail("restore_content", "step %d: answer %r selects index of %s, which is "
+                                     "not back in place as trashed (exit %d, stderr %r)" % (
+                                         step, reply, b["path"], r1.code, r1.err[-200:]), op="restore")
+                            bad = True
+                    if bad:
+                        break
+                    kinds.append("restore_multi%s" % ("_2digit" if hi >= 10 else ""))
+                    if not check(step, op):
+                        break
+                    continue
             blocked = target["path"] in snap
             r1 = run("trash-restore", sort, cwd=d, stdin="%d\n" % idx)
             if not blocked:
